@@ -202,6 +202,20 @@ pub fn replay(cases: &str, verdicts: &str, refdir: Option<&String>) {
                     let gt = guard(|| boxcox(x, tiny));
                     v.check(gt.map(|g| (g - x.ln()).abs() <= 1e-5 * (1.0 + x.ln().abs())).unwrap_or(false), "boxcox", "tiny-lambda", &c, json!(gt));
                 }
+                // just INSIDE the domain: every x + shift > 0 is accepted, however small - powers of two far below machine epsilon, with
+                // the exact value ((2^-k)^lambda - 1) / lambda for lambda = 1, 2, -1 and the logarithm for lambda = 0
+                for k in [53i32, 60, 200, 1000] {
+                    let tiny = 2f64.powi(-k);
+                    for (lm, want) in [(1.0f64, tiny - 1.0), (2.0, (tiny * tiny - 1.0) / 2.0), (-1.0, -(2f64.powi(k) - 1.0)), (0.0, -(k as f64) * std::f64::consts::LN_2)] {
+                        let g = guard(|| boxcox(tiny, lm));
+                        v.check(g.map(|g| (g - want).abs() <= 1e-12 * want.abs()).unwrap_or(false), "boxcox", "tiny-valid-argument", &json!({"x_log2": -k, "lambda": lm}), json!(g));
+                        // the same argument reached through a shift that cancels all but 2^-k of x (k <= 60: 1 - (1 - 2^-k) is exact for k = 53)
+                        if k == 53 {
+                            let g = guard(|| boxcox_shifted(1.0, lm, -(1.0 - tiny)));
+                            v.check(g.map(|g| (g - want).abs() <= 1e-12 * want.abs()).unwrap_or(false), "boxcox_shifted", "tiny-valid-argument", &json!({"x": 1.0, "shift": fj(-(1.0 - tiny)), "lambda": lm}), json!(g));
+                        }
+                    }
+                }
                 // outside the domain x + shift > 0: rejected
                 for bad in [0.0, -x] {
                     let gb = guard(|| boxcox(bad, lam));
